@@ -530,10 +530,12 @@ fn convert_array8_to_type(src: &Array8, lg_config_k: u8, target_type: HllType) -
                 }
             }
 
-            let src_est = src.estimate();
-            let arr6_est = array6.estimate();
-            if src_est > arr6_est {
-                array6.set_hip_accum(src_est);
+            // The converted sketch must estimate exactly like the gadget: carry over the
+            // HIP accumulator, or the out-of-order mark when the accumulator is invalid.
+            if src.is_out_of_order() {
+                array6.set_out_of_order(true);
+            } else {
+                array6.set_hip_accum(src.hip_accum());
             }
 
             HllSketch::from_mode(lg_config_k, Mode::Array6(array6))
@@ -548,10 +550,12 @@ fn convert_array8_to_type(src: &Array8, lg_config_k: u8, target_type: HllType) -
                 }
             }
 
-            let src_est = src.estimate();
-            let arr4_est = array4.estimate();
-            if src_est > arr4_est {
-                array4.set_hip_accum(src_est);
+            // The converted sketch must estimate exactly like the gadget: carry over the
+            // HIP accumulator, or the out-of-order mark when the accumulator is invalid.
+            if src.is_out_of_order() {
+                array4.set_out_of_order(true);
+            } else {
+                array4.set_hip_accum(src.hip_accum());
             }
 
             HllSketch::from_mode(lg_config_k, Mode::Array4(array4))
@@ -596,7 +600,17 @@ fn copy_or_downsample(src_mode: &Mode, src_lg_k: u8, tgt_lg_k: u8) -> Array8 {
             }
         }
 
-        result.set_hip_accum(src_hip);
+        let src_ooo = match src_mode {
+            Mode::Array6(src) => src.is_out_of_order(),
+            Mode::Array4(src) => src.is_out_of_order(),
+            _ => false,
+        };
+        if src_ooo {
+            // an out-of-order source has no valid HIP accumulator to inherit
+            result.set_out_of_order(true);
+        } else {
+            result.set_hip_accum(src_hip);
+        }
         result
     } else {
         // Downsample from src to tgt
